@@ -38,6 +38,54 @@ Proof.
   split; [exact H|]. split; [exact H1|]. split; [exact H2|]. split; [exact H3|exact H4].
 Qed.
 
+(* pure list facts used for moves that fail half way *)
+Lemma forall2_in_l {A B} (R : A -> B -> Prop) l1 l2 a : Forall2 R l1 l2 -> In a l1 -> exists b, In b l2 /\ R a b.
+Proof.
+  intro F. induction F as [|x y l1 l2 Hxy F IH]; [intros []|].
+  intros [<-|Hin]; [exists y; split; [left; reflexivity|exact Hxy]|].
+  destruct (IH Hin) as (b & Hb & Hr). exists b. split; [right; exact Hb|exact Hr].
+Qed.
+Lemma forall2_in_r {A B} (R : A -> B -> Prop) l1 l2 b : Forall2 R l1 l2 -> In b l2 -> exists a, In a l1 /\ R a b.
+Proof.
+  intro F. induction F as [|x y l1 l2 Hxy F IH]; [intros []|].
+  intros [<-|Hin]; [exists x; split; [left; reflexivity|exact Hxy]|].
+  destruct (IH Hin) as (a & Ha & Hr). exists a. split; [right; exact Ha|exact Hr].
+Qed.
+(* a relation that is a partial function, onto a duplicate-free list: related to the same b means the same position *)
+Lemma forall2_inj {A B} (R : A -> B -> Prop) l1 l2 :
+  (forall a b b', R a b -> R a b' -> b = b') -> Forall2 R l1 l2 -> NoDup l2 ->
+  forall a1 a2 b, In a1 l1 -> In a2 l1 -> R a1 b -> R a2 b -> a1 = a2.
+Proof.
+  intros Hfun F. induction F as [|x y l1 l2 Hxy F IH]; intros N a1 a2 b H1 H2 R1 R2; [destruct H1|].
+  inversion N as [|? ? Hnot N']; subst.
+  destruct H1 as [<-|H1], H2 as [<-|H2].
+  - reflexivity.
+  - exfalso. apply Hnot. destruct (forall2_in_l R l1 l2 a2 F H2) as (b2 & Hb2 & Hr2).
+    rewrite (Hfun _ _ _ Hxy R1). rewrite (Hfun _ _ _ R2 Hr2). exact Hb2.
+  - exfalso. apply Hnot. destruct (forall2_in_l R l1 l2 a1 F H1) as (b1 & Hb1 & Hr1).
+    rewrite (Hfun _ _ _ Hxy R2). rewrite (Hfun _ _ _ R1 Hr1). exact Hb1.
+  - exact (IH N' a1 a2 b H1 H2 R1 R2).
+Qed.
+Lemma nodup_map_inj {A B} (f : A -> B) l a b : NoDup (map f l) -> In a l -> In b l -> f a = f b -> a = b.
+Proof.
+  induction l as [|x l IH]; [intros _ []|]. cbn [map]. intro N. inversion N as [|? ? Hnot N']; subst.
+  intros [<-|Ha] [<-|Hb] E.
+  - reflexivity.
+  - exfalso. apply Hnot. rewrite E. apply in_map. exact Hb.
+  - exfalso. apply Hnot. rewrite <- E. apply in_map. exact Ha.
+  - exact (IH N' Ha Hb E).
+Qed.
+Lemma nodup_map_filter {A B} (f : A -> B) (p : A -> bool) l : NoDup (map f l) -> NoDup (map f (filter p l)).
+Proof.
+  induction l as [|x l IH]; cbn; [intro; constructor|]. intro N. inversion N as [|? ? Hnot N']; subst.
+  destruct (p x); [|exact (IH N')]. cbn. constructor; [|exact (IH N')].
+  intro Hin. apply Hnot. apply in_map_iff in Hin. destruct Hin as (y & E & Hy). apply filter_In in Hy.
+  apply in_map_iff. exists y. split; [exact E|apply Hy].
+Qed.
+Lemma forall2_forall {A B} (R P : A -> B -> Prop) l1 l2 :
+  Forall2 R l1 l2 -> (forall a b, In a l1 -> In b l2 -> R a b -> P a b) -> Forall2 P l1 l2.
+Proof. intros F H. revert F. apply Forall2_impl_in. exact H. Qed.
+
 Section Proofs.
 Variables Data Bytes : Type.
 Variable enc : Z -> Z -> Data -> option Bytes.
@@ -689,6 +737,248 @@ Qed.
 Theorem explicit_selection_thm (F : fset) sl (d : disk) ps : s_files sl = Some ps ->
   find F sl d = Good (flat_map (entry_of F) ps).
 Proof. intro H. unfold C11_fsops.find, C11_fsops.entries. rewrite H. reflexivity. Qed.
+
+(* ------------------------------------------------------------------ a move whose conversion fails for some files *)
+
+Notation recodep := (recodep Data Bytes enc dec pack unpack).
+Notation move1p := (move1p Data Bytes enc dec pack unpack).
+Notation move_part := (move_part Data Bytes enc dec pack unpack).
+Notation movep := (movep Data Bytes enc dec pack unpack).
+Notation move_given := (move_given Data Bytes enc dec pack unpack).
+Notation failsb := (failsb Data Bytes enc dec pack unpack).
+Notation foldP := (foldP Bytes).
+
+(* the content the target gets, or why it gets none *)
+Definition new_contentp (F G : fset) (conv : option (Data -> option Data)) (en : entry) (q : str) (b : Bytes) : res Bytes :=
+  match conv with Some f => recodep F G f (e_path en) q b | None => Good b end.
+
+(* a conversion that never fails is the conversion of `move` *)
+Lemma recodep_total (F G : fset) f p q b : recodep F G (fun x => Some (f x)) p q b = recode F G f p q b.
+Proof. reflexivity. Qed.
+Lemma move1p_total (F G : fset) copy conv (d : disk) en :
+  move1p F G copy (option_map (fun f x => Some (f x)) conv) d en = move1 F G copy conv d en.
+Proof. destruct conv; reflexivity. Qed.
+
+Lemma move1p_spec (F G : fset) copy conv (d d' : disk) en q :
+  target G en = Ok q -> dlook q d = None -> move1p F G copy conv d en = Good d' ->
+  exists b c, dlook (e_path en) d = Some b /\ new_contentp F G conv en q b = Good c /\
+    dlook q d' = Some c /\ dlook (e_path en) d' = (if copy then Some b else None) /\
+    (forall r, r <> q -> r <> e_path en -> dlook r d' = dlook r d).
+Proof.
+  intros Ht Hq Hm. unfold C11_fsops.move1p in Hm. rewrite Ht in Hm.
+  destruct (dlook (e_path en) d) as [b|] eqn:Eb; [|discriminate].
+  assert (Hpq : e_path en <> q) by (intro E; rewrite E in Eb; congruence).
+  exists b. unfold new_contentp. destruct conv as [f|].
+  - destruct (recodep F G f (e_path en) q b) as [c|er] eqn:Er; cbn [rbind] in Hm; [|discriminate].
+    exists c. split; [reflexivity|]. split; [reflexivity|]. injection Hm as <-. destruct copy.
+    + split; [apply dlook_dstore_same|]. split; [rewrite dlook_dstore_other by exact Hpq; exact Eb|].
+      intros r Hr _. apply dlook_dstore_other. exact Hr.
+    + split; [rewrite dlook_dremove_other by congruence; apply dlook_dstore_same|].
+      split; [apply dlook_dremove_same|].
+      intros r Hr Hr'. rewrite dlook_dremove_other by exact Hr'. apply dlook_dstore_other. exact Hr.
+  - rewrite (str_eqb_neq _ _ Hpq) in Hm. exists b. split; [reflexivity|]. split; [reflexivity|].
+    injection Hm as <-. destruct copy.
+    + split; [apply dlook_dstore_same|]. split; [rewrite dlook_dstore_other by exact Hpq; exact Eb|].
+      intros r Hr _. apply dlook_dstore_other. exact Hr.
+    + split; [rewrite dlook_dremove_other by congruence; apply dlook_dstore_same|].
+      split; [apply dlook_dremove_same|].
+      intros r Hr Hr'. rewrite dlook_dremove_other by exact Hr'. apply dlook_dstore_other. exact Hr.
+Qed.
+
+(* the files whose worker ran to its end, in whatever order: each of them is moved, nothing else has changed *)
+Lemma movep_fold (F G : fset) copy conv : forall done (d d' : disk),
+  (forall en, In en done -> exists q, target G en = Ok q /\ dlook q d = None) ->
+  (forall en, In en done -> dlook (e_path en) d <> None) ->
+  NoDup (map e_path done) ->
+  (forall en1 en2 q, In en1 done -> In en2 done -> target G en1 = Ok q -> target G en2 = Ok q -> e_path en1 = e_path en2) ->
+  foldM (move1p F G copy conv) done d = Good d' ->
+  (forall en, In en done -> exists q b c, target G en = Ok q /\ dlook (e_path en) d = Some b /\
+       new_contentp F G conv en q b = Good c /\ dlook q d' = Some c /\
+       dlook (e_path en) d' = (if copy then Some b else None)) /\
+  (forall r, ~ In r (map e_path done) -> (forall en q, In en done -> target G en = Ok q -> r <> q) -> dlook r d' = dlook r d).
+Proof.
+  induction done as [|en done IH]; intros d d' Hfresh Hex Np Hinj Hf.
+  - cbn in Hf. injection Hf as <-. split; [intros ? []|reflexivity].
+  - cbn [C11_fsops.foldM] in Hf.
+    destruct (move1p F G copy conv d en) as [d1|er] eqn:E1; [|discriminate].
+    destruct (Hfresh en (or_introl eq_refl)) as (q & Ht & Hq).
+    destruct (move1p_spec F G copy conv d d1 en q Ht Hq E1) as (b & c & Hb & Hc & Hq1 & Hp1 & Hfr1).
+    cbn [map] in Np. inversion Np as [|? ? Hp_notin Np']; subst.
+    assert (Hsrc_ne_p : forall en', In en' done -> e_path en' <> e_path en).
+    { intros en' Hin E. apply Hp_notin. rewrite <- E. apply in_map. exact Hin. }
+    assert (Hsrc_ne_q : forall en', In en' done -> e_path en' <> q).
+    { intros en' Hin E. apply (Hex en' (or_intror Hin)). rewrite E. exact Hq. }
+    assert (Htgt_ne_q : forall en' q', In en' done -> target G en' = Ok q' -> q' <> q).
+    { intros en' q' Hin Ht' E. subst q'. apply (Hsrc_ne_p en' Hin).
+      apply (Hinj en' en q (or_intror Hin) (or_introl eq_refl) Ht' Ht). }
+    assert (Htgt_ne_p : forall en' q', In en' done -> target G en' = Ok q' -> q' <> e_path en).
+    { intros en' q' Hin Ht' E. destruct (Hfresh en' (or_intror Hin)) as (q2 & Ht2 & Hq2).
+      rewrite Ht' in Ht2. injection Ht2 as <-. rewrite E in Hq2. rewrite Hq2 in Hb. discriminate. }
+    destruct (IH d1 d') as (Hmoved & Hframe); [| |exact Np'| |exact Hf|].
+    + intros en' Hin. destruct (Hfresh en' (or_intror Hin)) as (q' & Ht' & Hq'). exists q'. split; [exact Ht'|].
+      rewrite Hfr1; [exact Hq'|exact (Htgt_ne_q en' q' Hin Ht')|exact (Htgt_ne_p en' q' Hin Ht')].
+    + intros en' Hin. rewrite Hfr1; [apply Hex; right; exact Hin|exact (Hsrc_ne_q en' Hin)|exact (Hsrc_ne_p en' Hin)].
+    + intros en1 en2 q' H1 H2. apply Hinj; right; assumption.
+    + split.
+      * intros en' [<-|Hin].
+        -- exists q, b, c. split; [exact Ht|]. split; [exact Hb|]. split; [exact Hc|]. split.
+           ++ rewrite Hframe; [exact Hq1| |].
+              ** intro Hin. apply in_map_iff in Hin. destruct Hin as (en' & E & Hin). exact (Hsrc_ne_q en' Hin E).
+              ** intros en' q' Hin Ht' E. exact (Htgt_ne_q en' q' Hin Ht' (eq_sym E)).
+           ++ rewrite Hframe; [exact Hp1|exact Hp_notin|].
+              intros en' q' Hin Ht' E. exact (Htgt_ne_p en' q' Hin Ht' (eq_sym E)).
+        -- destruct (Hmoved en' Hin) as (q' & b' & c' & Ht' & Hb' & Hc' & Hq' & Hp').
+           exists q', b', c'. split; [exact Ht'|]. split; [|split; [exact Hc'|split; [exact Hq'|exact Hp']]].
+           rewrite <- Hb'. symmetry. apply Hfr1; [exact (Hsrc_ne_q en' Hin)|exact (Hsrc_ne_p en' Hin)].
+      * intros r Hr Hrq. cbn [map In] in Hr. rewrite Hframe.
+        -- apply Hfr1.
+           ++ apply (Hrq en q (or_introl eq_refl) Ht).
+           ++ intro E. apply Hr. left. symmetry. exact E.
+        -- intro Hin. apply Hr. right. exact Hin.
+        -- intros en' q' Hin Ht'. apply (Hrq en' q' (or_intror Hin) Ht').
+Qed.
+
+Lemma target_fun (G : fset) en q q' : target G en = Ok q -> target G en = Ok q' -> q = q'.
+Proof. intros H H'. rewrite H in H'. injection H' as <-. reflexivity. Qed.
+
+(* CONSERVATION WHEN A MOVE FAILS HALF WAY.  es = the selected files, qs their target names (pairwise distinct, fresh:
+   the hypotheses of move_conserves); done = the files whose worker ran to its end, in the order they did. *)
+Theorem move_failure_conserves_thm (F G : fset) copy conv (d d' : disk) es qs done :
+  Forall2 (fun en q => target G en = Ok q) es qs ->
+  NoDup (map e_path es) -> NoDup qs ->
+  (forall q, In q qs -> dlook q d = None) ->
+  (forall en, In en es -> dlook (e_path en) d <> None) ->
+  incl done es -> NoDup (map e_path done) ->
+  move_part F G copy conv done d = Good d' ->
+  Forall2 (fun en q => target G en = Ok q /\ exists b, dlook (e_path en) d = Some b /\
+      ((In en done /\ exists c, new_contentp F G conv en q b = Good c /\ dlook q d' = Some c /\
+                                 dlook (e_path en) d' = (if copy then Some b else None))
+       \/ (~ In en done /\ dlook (e_path en) d' = Some b /\ dlook q d' = None))) es qs /\
+  (forall en q b e, In en es -> target G en = Ok q -> dlook (e_path en) d = Some b ->
+                    new_contentp F G conv en q b = Bad e -> ~ In en done) /\
+  (forall r, ~ In r (map e_path es) -> ~ In r qs -> dlook r d' = dlook r d).
+Proof.
+  intros H2 Np Nq Hfresh Hex Hincl Npd Hm. unfold C11_fsops.move_part in Hm.
+  assert (Hinj : forall en1 en2 q, In en1 es -> In en2 es -> target G en1 = Ok q -> target G en2 = Ok q -> en1 = en2).
+  { intros en1 en2 q H1 H2' T1 T2.
+    exact (forall2_inj (fun en q => target G en = Ok q) es qs (target_fun G) H2 Nq en1 en2 q H1 H2' T1 T2). }
+  assert (Htq : forall en, In en es -> exists q, In q qs /\ target G en = Ok q).
+  { intros en Hin. exact (forall2_in_l _ es qs en H2 Hin). }
+  destruct (movep_fold F G copy conv done d d') as (Hmoved & Hframe); [| | exact Npd | | exact Hm |].
+  - intros en Hin. destruct (Htq en (Hincl en Hin)) as (q & Hq & Ht). exists q. split; [exact Ht|apply Hfresh; exact Hq].
+  - intros en Hin. apply Hex. apply Hincl. exact Hin.
+  - intros en1 en2 q H1 H2' T1 T2. f_equal. exact (Hinj en1 en2 q (Hincl _ H1) (Hincl _ H2') T1 T2).
+  - (* a file of es whose path is a path of done is in done *)
+    assert (Hdone_path : forall en, In en es -> In (e_path en) (map e_path done) -> In en done).
+    { intros en Hin Hp. apply in_map_iff in Hp. destruct Hp as (en' & E & Hin').
+      rewrite <- (nodup_map_inj e_path es en' en Np (Hincl _ Hin') Hin E). exact Hin'. }
+    assert (Hrest : forall en q, In en es -> target G en = Ok q -> ~ In en done ->
+                      dlook (e_path en) d' = dlook (e_path en) d /\ dlook q d' = dlook q d).
+    { intros en q Hin Ht Hnot. split.
+      - apply Hframe.
+        + intro Hp. apply Hnot. apply Hdone_path; assumption.
+        + intros en' q' Hin' Ht' E. destruct (Htq en' (Hincl _ Hin')) as (q2 & Hq2 & Ht2).
+          rewrite (target_fun G en' q' q2 Ht' Ht2) in E. apply (Hex en Hin). rewrite E. apply Hfresh. exact Hq2.
+      - apply Hframe.
+        + intro Hp. apply in_map_iff in Hp. destruct Hp as (en' & E & Hin').
+          apply (Hex en' (Hincl _ Hin')). rewrite E. destruct (Htq en Hin) as (q2 & Hq2 & Ht2).
+          rewrite (target_fun G en q q2 Ht Ht2). apply Hfresh. exact Hq2.
+        + intros en' q' Hin' Ht' E. subst q'. apply Hnot.
+          rewrite (Hinj en en' q Hin (Hincl _ Hin') Ht Ht'). exact Hin'. }
+    split; [|split].
+    + apply (forall2_forall (fun en q => target G en = Ok q)); [exact H2|].
+      intros en q Hin Hq Ht. split; [exact Ht|].
+      destruct (dlook (e_path en) d) as [b|] eqn:Eb; [|exfalso; exact (Hex en Hin Eb)].
+      exists b. split; [reflexivity|].
+      destruct (memb (e_path en) (map e_path done)) eqn:Em.
+      * left. apply existsb_exists in Em. destruct Em as (p' & Hp' & E). apply str_eqb_eq in E. subst p'.
+        pose proof (Hdone_path en Hin Hp') as Hd. split; [exact Hd|].
+        destruct (Hmoved en Hd) as (q' & b' & c' & Ht' & Hb' & Hc' & Hq' & Hpp').
+        rewrite (target_fun G en q q' Ht Ht'). rewrite Eb in Hb'. injection Hb' as <-.
+        exists c'. split; [exact Hc'|]. split; [exact Hq'|exact Hpp'].
+      * right. assert (Hnot : ~ In en done).
+        { intro Hd. assert (E : memb (e_path en) (map e_path done) = true).
+          { apply existsb_exists. exists (e_path en). split; [apply in_map; exact Hd|apply str_eqb_refl]. }
+          rewrite E in Em. discriminate. }
+        split; [exact Hnot|]. destruct (Hrest en q Hin Ht Hnot) as [Hs Hqq]. split.
+        -- rewrite Hs. exact Eb.
+        -- rewrite Hqq. apply Hfresh. exact Hq.
+    + intros en q b e Hin Ht Hb Hbad Hd.
+      destruct (Hmoved en Hd) as (q' & b' & c' & Ht' & Hb' & Hc' & _).
+      rewrite (target_fun G en q' q Ht' Ht) in Hc'. rewrite Hb in Hb'. injection Hb' as <-.
+      rewrite Hbad in Hc'. discriminate.
+    + intros r Hr Hrq. apply Hframe.
+      * intro Hp. apply Hr. apply in_map_iff in Hp. destruct Hp as (en' & E & Hin'). apply in_map_iff.
+        exists en'. split; [exact E|apply Hincl; exact Hin'].
+      * intros en' q' Hin' Ht' E. subst q'. apply Hrq. destruct (Htq en' (Hincl _ Hin')) as (q2 & Hq2 & Ht2).
+        rewrite (target_fun G en' r q2 Ht' Ht2). exact Hq2.
+Qed.
+
+(* workers one after the other: the files before the first failing one are done, the rest is not begun *)
+Lemma foldP_prefix {A} (f : disk -> A -> res disk) : forall l (d d' : disk) r, foldP f l d = (d', r) ->
+  exists done rest, l = done ++ rest /\ C11_fsops.foldM Bytes f done d = Good d' /\
+    match r with
+    | None => rest = []
+    | Some e => exists x rest', rest = x :: rest' /\ f d' x = Bad e
+    end.
+Proof.
+  induction l as [|x l IH]; intros d d' r H.
+  - cbn in H. injection H as <- <-. exists [], []. split; [reflexivity|]. split; reflexivity.
+  - cbn [C11_fsops.foldP] in H. destruct (f d x) as [d1|e] eqn:E.
+    + destruct (IH d1 d' r H) as (done & rest & -> & Hf & Hr). exists (x :: done), rest.
+      split; [reflexivity|]. split; [cbn [C11_fsops.foldM]; rewrite E; exact Hf|exact Hr].
+    + injection H as <- <-. exists [], (x :: l). split; [reflexivity|]. split; [reflexivity|].
+      exists x, l. split; [reflexivity|exact E].
+Qed.
+
+Theorem move_sequential_thm (F G : fset) copy conv sl (d d' : disk) r :
+  movep F G copy conv sl d = Good (d', r) ->
+  exists es done rest, find F sl d = Good es /\ es = done ++ rest /\ move_part F G copy conv done d = Good d' /\
+    match r with
+    | None => rest = []
+    | Some e => exists en rest', rest = en :: rest' /\ move1p F G copy conv d' en = Bad e
+    end.
+Proof.
+  unfold C11_fsops.movep. destruct (find F sl d) as [es|er]; [|discriminate]. cbn [rbind]. intro H. injection H as H.
+  destruct (foldP_prefix _ es d d' r H) as (done & rest & E & Hf & Hr).
+  exists es, done, rest. split; [reflexivity|]. split; [exact E|]. split; [exact Hf|exact Hr].
+Qed.
+
+(* ---- the form the harness evaluates on the tree d' it observes after a move (that raised or not) *)
+Theorem move_given_sound_thm (F G : fset) copy conv sl (d d' d'' : disk) :
+  movep_hyp Data Bytes F G sl d = true ->
+  move_given F G copy conv sl d d' = Good d'' -> (forall r, dlook r d'' = dlook r d') ->
+  let es := entries F sl d in
+  find F sl d = Good es /\
+  (forall en, In en es -> exists q b, target G en = Ok q /\ dlook (e_path en) d = Some b /\
+      ((exists c, new_contentp F G conv en q b = Good c /\ dlook q d' = Some c /\
+                  dlook (e_path en) d' = (if copy then Some b else None))
+       \/ (dlook (e_path en) d' = Some b /\ dlook q d' = None)) /\
+      (forall e, new_contentp F G conv en q b = Bad e -> dlook (e_path en) d' = Some b /\ dlook q d' = None)) /\
+  (forall r, ~ In r (map e_path es) -> ~ In r (targets_of G es) -> dlook r d' = dlook r d).
+Proof.
+  intros Hh Hm Heq. cbv zeta. unfold C11_fsops.movep_hyp in Hh. apply andb_true_iff in Hh. destruct Hh as [Hh Hexb].
+  destruct (move_hyp_sound_thm F G sl d Hh) as (H2 & Np & Nq & Hfresh).
+  cbv zeta in H2, Np, Nq, Hfresh.
+  unfold C11_fsops.move_given in Hm. destruct (find F sl d) as [es|er] eqn:Ef; [|discriminate]. cbn [rbind] in Hm.
+  pose proof (find_entries F sl d es Ef) as ->. split; [reflexivity|].
+  assert (Hex : forall en, In en (entries F sl d) -> dlook (e_path en) d <> None).
+  { intros en Hin. rewrite forallb_forall in Hexb. specialize (Hexb en Hin). unfold fresh in Hexb.
+    destruct (dlook (e_path en) d); [discriminate|discriminate Hexb]. }
+  destruct (move_failure_conserves_thm F G copy conv d d'' (entries F sl d) (targets_of G (entries F sl d))
+              (filter (arrivedb Data Bytes G d') (entries F sl d)) H2 Np Nq Hfresh Hex)
+    as (Hall & Hfail & Hframe).
+  - intros en Hin. apply filter_In in Hin. apply Hin.
+  - apply nodup_map_filter. exact Np.
+  - exact Hm.
+  - split.
+    + intros en Hin. destruct (forall2_in_l _ _ _ en Hall Hin) as (q & Hq & Ht & b & Hb & Hc).
+      exists q, b. split; [exact Ht|]. split; [exact Hb|]. rewrite <- !Heq. split.
+      * destruct Hc as [(_ & c & Hc1 & Hc2 & Hc3)|(_ & Hs & Hn)]; [left; exists c; auto|right; auto].
+      * intros e Hbad. destruct Hc as [(Hd & _)|(_ & Hs & Hn)]; [|auto].
+        exfalso. exact (Hfail en q b e Hin Ht Hb Hbad Hd).
+    + intros r Hr Hrq. rewrite <- Heq. apply Hframe; assumption.
+Qed.
 
 (* ------------------------------------------------------------------ arguments of a single call *)
 
